@@ -33,7 +33,7 @@ def run(chk, args):
         mc(chk, "parent_R9", 9, {2}, "parent_draw")
     summ = vlib.run_driver("drv_evaluate", ["--out", str(chk.wd / "ev"), "--seed", str(chk.seed), "--ns", "3,4" if q else "3,4,5",
                                             "--configs", str(16 if q else 64), "--procs", "1,2,3,4" if q else "1,2,3,4,5,6,8,16",
-                                            "--reps", "1,3,8" if q else "1,3,8,24"], chk.wd, timeout=3400)
+                                            "--reps", "1,3,12" if q else "1,3,12,24"], chk.wd, timeout=3400)
     import json
     for f in summ["files"]:
         validate_file(chk, Path(f["path"]), f["n"], {"C12"}, "evaluate", spec="Trace_Evaluate")
